@@ -461,3 +461,22 @@ Definition dec_parse (s : text) : option dec :=
 Definition dval (l : text) : Z := fold_left (fun a c => 10 * a + (c - 48)) l 0.
 (* Decimal._int: digits only, no leading zero unless it is "0" *)
 Definition canonical (ds : text) : Prop := ds <> [] /\ all_digits ds = true /\ (ds = [48] \/ hd 0 ds <> 48).
+
+(* ------------------------------------------------------------------------------------------------------------ *)
+(* 10. long names of the signals of ONE frame (dump ~218-257 with dbcUniqueSignalNames, the default): signals whose shortened
+       names collide get a numeric suffix on their SG_ symbol - the number of earlier signals of the frame with the same
+       shortened name - and every statement (BA_, CM_, VAL_, ...) addresses the signal by that symbol.  Frames are addressed
+       by their identifier (the per-object case of section 5); ECUs and environment variables have no such disambiguation
+       (section 5 as it stands: 32-character prefixes must be unique). *)
+Fixpoint out_pairs (all_shorts seen : list text) (ns : list text) : list (text * text) :=
+  match ns with
+  | [] => []
+  | n :: r =>
+      let s := short_name n in
+      (s ++ (if (1 <? count_name s all_shorts)%nat then nat_text (N.of_nat (count_name s seen)) else []), n)
+      :: out_pairs all_shorts (seen ++ [s]) r
+  end.
+Definition w_out_pairs (ns : list text) : list (text * text) := out_pairs (map short_name ns) [] ns.
+Definition w_out_names (ns : list text) : list text := map fst (w_out_pairs ns).
+Definition w_out_attrs (ns : list text) : list (text * text) :=
+  flat_map (fun p => if is_long (snd p) then [(fst p, snd p)] else []) (w_out_pairs ns).
